@@ -1202,13 +1202,21 @@ static void run_shapes(Ctx& ctx) {
     shapes_typed<arr_cmplx>(ctx, "cmplx");
     // linspace: n = 1..100 x 5 endpoint pairs; element i = x1 + i (x2-x1)/(n-1) within 8 eps max(|x1|,|x2|); n = 1 -> {x2} (MATLAB) or {x1}
     {
-        const double ends[5][2] = {{0, 1}, {-1, 1}, {5, -3}, {0.1, 0.7}, {-1e6, 1e-3}};
+        // the last five pairs are degenerate: a constant range (x1 == x2, step 0) and ranges a few ulps wide (step below the spacing
+        // of the doubles around x1) - a length derived from (x2-x1)/step instead of n fails exactly there
+        const double ends[10][2] = {{0, 1}, {-1, 1}, {5, -3}, {0.1, 0.7}, {-1e6, 1e-3}, {2.5, 2.5}, {0, 0}, {1e16, 1e16 + 2}, {1, 1 + 4 * 2.220446049250313e-16}, {-3, -3 + 8.881784197001252e-16}};
         for (int n = 1; n <= B(100, 400); ++n)
-            for (int e = 0; e < 5; ++e) {
+            for (int e = 0; e < 10; ++e) {
                 if (!ctx.take("shape.linspace", P().kv("n", n).kv("x1", ends[e][0]).kv("x2", ends[e][1]))) continue;
                 if (n >= 3) ctx.nontrivial();
                 const double x1 = ends[e][0], x2 = ends[e][1], sc = std::max(std::fabs(x1), std::fabs(x2));
-                const arr_real r = d::linspace(x1, x2, (size_t)n);
+                arr_real r;
+                try {
+                    r = d::linspace(x1, x2, (size_t)n);
+                } catch (const std::exception& ex) {
+                    ctx.fail("linspace", fmt("exception: %s", ex.what()), fmt("%d values", n), P().kv("what", "throw"));
+                    continue;
+                }
                 if (r.size() != n) {
                     ctx.fail("linspace", fmt("size %d", r.size()), fmt("%d", n));
                     continue;
